@@ -111,6 +111,15 @@ var (
 	ids  = map[interface{}]uint64{}
 )
 
+// ResetRun forgets the identities and the map-order epoch of the previous run: a run must not depend
+// on what ran before it in the same process.
+func ResetRun() {
+	idMu.Lock()
+	ids = map[interface{}]uint64{}
+	idMu.Unlock()
+	epoch.Store(0)
+}
+
 func rank(seed, ep uint64, s string) uint64 {
 	h := fnv.New64a()
 	var b [16]byte
